@@ -20,7 +20,7 @@ LEVEL = "exploration"
 RULE = (
     "Configuration product level {1.1,1.5} x image naming {by polarisation, by ScanSAR scan suffix only} x producer {create_cache=True, CLI main() with --rpc} x "
     "location {user cache dir, adjacent, both} x product filesystem {local path, file:// URL, "
-    "memory://, custom vtrace://} x rpc_write x rpc_read in {1, 2, N, N+1, 1024} x decoy x process time zone {UTC, 8 h west, 9 h east; vtrace:// reports modification times like the local filesystem does}: a "
+    "memory://, custom vtrace://} x rpc_write x rpc_read in {1, 2, N, N+1, 1024} x decoy x options dicts {fresh per call, one object re-used by the calls with equal options} x process time zone {UTC, 8 h west, 9 h east; vtrace:// reports modification times like the local filesystem does}: a "
     "pairwise-covering sample in quick (Hypothesis draws the rest), the full cross product in "
     "thorough. Oracles: (i) tree(use_cache=True) == tree(use_cache=False) leaf for leaf incl. "
     "dtypes, pixels and preferred_chunksizes from the CURRENT rpc; (ii) decoy caches (well-formed "
@@ -252,7 +252,18 @@ def run_case(case):
     with harness.process_tz(case.get("tz")), harness.Materialised(files, case["fs"]) as prod:
         url = prod.url
         try:
-            ref, err = harness.guard(harness.open_tree, url, use_cache=False, records_per_chunk=case["rpc_read"])
+            shared = {}
+
+            def opened(**opts):
+                """open_alos2 with these options; with 'reuse' the calls that have equal options hand
+                the library the very same dict object again (build the options once, call often)"""
+                import ceos_alos2
+
+                if not case.get("reuse"):
+                    return ceos_alos2.open_alos2(url, backend_options=dict(opts))
+                return ceos_alos2.open_alos2(url, backend_options=shared.setdefault(harness.canonical(opts), dict(opts)))
+
+            ref, err = harness.guard(opened, use_cache=False, records_per_chunk=case["rpc_read"])
             if err is not None:
                 return [harness.disc("exception", "open_alos2(use_cache=False)", "a tree", harness.exc_text(err))]
             ref_flat = harness.flatten(ref)
@@ -268,7 +279,7 @@ def run_case(case):
             # (i) + (iii)
             if case["fs"] == "vtrace":
                 vtrace.STORE.clear()
-            cached, err = harness.guard(harness.open_tree, url, use_cache=True, records_per_chunk=case["rpc_read"])
+            cached, err = harness.guard(opened, use_cache=True, records_per_chunk=case["rpc_read"])
             events = vtrace.STORE.snapshot() if case["fs"] == "vtrace" else []
             if err is not None:
                 out.append(harness.disc("exception", "open_alos2(use_cache=True) with cache", "a tree", harness.exc_text(err)))
@@ -299,7 +310,7 @@ def run_case(case):
                     p.parent.mkdir(parents=True, exist_ok=True)
                     p.write_text(decoy)
                     put_adjacent(prod, image, decoy)
-                t, err = harness.guard(harness.open_tree, url, use_cache=False, records_per_chunk=case["rpc_read"])
+                t, err = harness.guard(opened, use_cache=False, records_per_chunk=case["rpc_read"])
                 if err is not None:
                     out.append(harness.disc("exception", "open_alos2(use_cache=False) with decoys", "a tree", harness.exc_text(err)))
                 else:
@@ -316,7 +327,7 @@ def run_case(case):
                     out.extend(harness.diff_flat(
                         ref_flat, harness.flatten(t), kind="decoy-consulted",
                         ignore_encoding=is_image_data if case["rpc_write"] != case["rpc_read"] else (lambda key: False)))
-                    t, err = harness.guard(harness.open_tree, url, use_cache=True, records_per_chunk=case["rpc_read"])
+                    t, err = harness.guard(opened, use_cache=True, records_per_chunk=case["rpc_read"])
                     if err is not None:
                         out.append(harness.disc("exception", "open_alos2(use_cache=True) after re-creating the cache", "a tree", harness.exc_text(err)))
                     else:
@@ -344,6 +355,8 @@ AXES = {
     "naming": ["pol", "scan"],
     # time zone of the process (POSIX TZ strings: UTC, 8 h west, 9 h east of it)
     "tz": [None, "PST8", "JST-9"],
+    # every open of the case gets a fresh options dict / the opens with equal options share ONE dict object
+    "reuse": [False, True],
 }
 
 
@@ -411,7 +424,7 @@ def plan(tier):
 
 def classify(case):
     nontrivial = case["rpc_write"] != case["rpc_read"] or case["location"] == "both" or case["fs"] in ("memory", "vtrace")
-    return nontrivial, [f"fs={case['fs']}", f"producer={case['producer']}", f"location={case['location']}", f"level={case['level']}", f"decoy={case['decoy']}", f"naming={case.get('naming', 'pol')}", f"tz={case.get('tz')}"]
+    return nontrivial, [f"fs={case['fs']}", f"producer={case['producer']}", f"location={case['location']}", f"level={case['level']}", f"decoy={case['decoy']}", f"naming={case.get('naming', 'pol')}", f"tz={case.get('tz')}", f"reuse={case.get('reuse')}"]
 
 
 LEVEL_TEXT = (
